@@ -9,7 +9,7 @@ RULE = ('symbol bitmaps of all 48 sizes with random contents (python twin of the
         'module, stripes; light top-left bitmaps for the model correspondence only (outside the property); zero width and '
         'non-dividing lengths; one random bitmap of about 250 x 320 modules (more than 65535 outline edges, far beyond any symbol); pixels() and unicode() on the small bitmaps and on 8 symbols; non-trivial = bitmap with a dark '
         'top-left module and at least one light module')
-THEOREMS = ('C17_path_renders_dark, C17_tours_decompose, C17_compress_path, C17_graph_is_boundary, C17_evenodd_fills_dark, C17_check_sound, '
+THEOREMS = ('C17_path, C17_path_renders_dark, C17_path_total, C17_tours_decompose, C17_compress_path, C17_graph_is_boundary, C17_evenodd_fills_dark, C17_check_sound, '
             'C17_wellformed_step, C17_pixels, C17_unicode')
 ASSUMPTIONS = ['the even-odd fill of Spec/EvenOdd.v (ray to the left through module centres) is the fill rule of SVG/PDF for '
                'axis-parallel outlines on the integer grid',
